@@ -428,6 +428,16 @@ impl Ctx {
     }
 }
 
+/// A quiet context for in-process use by the fuzz targets: nothing is printed,
+/// listed findings are tolerated.
+pub fn fuzz_ctx(prop: &str) -> Ctx {
+    let mut ctx = Ctx::new(prop, Tier::Thorough, 0, 0, 1, crate::driver::load_known(), HashSet::new());
+    ctx.quiet = true;
+    // no statistics in a long fuzz campaign (they would only grow)
+    ctx.counting.set(false);
+    ctx
+}
+
 /// Convenience for the sig-stable "render" of a byte case.
 pub fn bytes_payload(bytes: &[u8], render: Value) -> Value {
     json!({"bytes": hex(bytes), "render": render})
